@@ -33,3 +33,20 @@ open Lungo.C13
 #print axioms Lungo.C13.distinct_complete
 #print axioms Lungo.C13.collect_elements_partial
 #print axioms Lungo.C13.distinct_is_collect
+#print axioms Lungo.C13.window_def
+#print axioms Lungo.C13.sortBy_cases
+#print axioms Lungo.C13.sortSDocs_is_sortDocs
+#print axioms Lungo.C13.filter_sort_comm
+#print axioms Lungo.C13.filter_sortBy_comm
+#print axioms Lungo.C13.negative_skip_rejected
+#print axioms Lungo.C13.find_window
+#print axioms Lungo.C13.find_window_total
+#print axioms Lungo.C13.find_bad_sort
+#print axioms Lungo.C13.find_with_match_errors
+#print axioms Lungo.C13.scanLimit_def
+#print axioms Lungo.C13.limit_zero_is_all
+#print axioms Lungo.C13.find_api
+#print axioms Lungo.C13.count_is_window_length
+#print axioms Lungo.C13.distinct_api
+#print axioms Lungo.C13.one_doc_write_targets_head
+#print axioms Lungo.C13.write_targets_selection
